@@ -347,6 +347,11 @@ pub proof fn lemma_weighted_share(s: Schedule, j: int)
 """
 
 
+# the Schedule invariant, membership test and thresholds are ASSUMED (as stub contracts) by the units qc, implied, replica, blockstore,
+# addrs: the properties those units serve run this unit too and count the failures of these sections
+DEP_PROPS = ["C11", "C07", "C01", "C02", "C04", "C05", "C08", "C16"]
+
+
 def build(repo):
     U = Unit("leader", ["C11"], desc="leader election",
              uses="use vstd::std_specs::ops::*;\nuse vstd::std_specs::convert::*;")
@@ -360,7 +365,7 @@ def build(repo):
     U.raw(PRELUDE_NEW, label="prelude Schedule::new")
     U.raw(SPEC, label="spec")
     U.raw(LEMMAS_NEW, label="lemmas Schedule::new", canary=True)
-    U.fn(F, "impl Schedule :: fn new", wrap="impl Schedule", ret="r", props=["C11", "C07", "C01", "C04"],   # establishes wf(): every quorum rule relies on it
+    U.fn(F, "impl Schedule :: fn new", wrap="impl Schedule", ret="r", props=DEP_PROPS,   # establishes wf(): every quorum / membership rule of the other units relies on it
          post_subs=[("Ok(Self {", "proof { lemma_total_pos(vec@, vec@.len() as int); lemma_prefix_pos(vec@, leaders@, leaders@.len() as int); } Ok(Self {")],
          proof_at_start="broadcast use vstd::seq_lib::group_to_multiset_ensures; proof { assert(validators@.subrange(0, 0) =~= Seq::<ValidatorInfo>::empty()); }",
          header_subs=[("validators: impl IntoIterator<Item = ValidatorInfo>", "validators: Vec<ValidatorInfo>   /* R-type: the iterator's items, in order */"),
@@ -396,26 +401,26 @@ def build(repo):
             && sorted_by_key(s.vec@) && s.vec@.to_multiset() == validators@.to_multiset()
             && s.leader_selection == leader_selection,
 """)
-    U.fn(F, "impl Schedule :: fn contains", wrap="impl Schedule", ret="r", header_subs=[("validator::PublicKey", "PublicKey")], spec="""
+    U.fn(F, "impl Schedule :: fn contains", wrap="impl Schedule", ret="r", props=DEP_PROPS, header_subs=[("validator::PublicKey", "PublicKey")], spec="""
     requires self.wf(),
     ensures r == (exists|j: int| 0 <= j < self.vec@.len() && self.vec@[j].key == *validator),
 """)
-    U.fn(F, "impl Schedule :: fn index", wrap="impl Schedule", ret="r", header_subs=[("validator::PublicKey", "PublicKey")], spec="""
+    U.fn(F, "impl Schedule :: fn index", wrap="impl Schedule", ret="r", props=DEP_PROPS, header_subs=[("validator::PublicKey", "PublicKey")], spec="""
     requires self.wf(),
     ensures r.is_some() ==> r.unwrap() < self.vec@.len() && self.vec@[r.unwrap() as int].key == *validator,
             r.is_none() ==> forall|j: int| 0 <= j < self.vec@.len() ==> self.vec@[j].key != *validator,
 """)
     # small accessors (so that code using them still type-checks after a refactoring); contracts say what they return
-    U.fn(F, "impl Schedule :: fn len", wrap="impl Schedule", ret="r", spec="    ensures r == self.vec@.len(),\n")
+    U.fn(F, "impl Schedule :: fn len", wrap="impl Schedule", ret="r", props=DEP_PROPS, spec="    ensures r == self.vec@.len(),\n")
     U.fn(F, "impl Schedule :: fn total_weight", wrap="impl Schedule", ret="r", spec="    ensures r == self.total_weight,\n")
     U.fn(F, "impl Schedule :: fn leaders", wrap="impl Schedule", ret="r", spec="    ensures r@ == self.leaders@,\n")
     U.fn(F, "impl Schedule :: fn leader_selection", wrap="impl Schedule", ret="r", spec="    ensures *r == self.leader_selection,\n")
     # C07: the thresholds a Schedule reports are those of its TOTAL weight
     U.raw(THRESH_SPEC, label="threshold spec", props=["C07"])
     for f in ("max_faulty_weight", "quorum_threshold", "subquorum_threshold"):
-        U.fn(F, "fn " + f, ret="r", props=["C07"], spec=THRESH_CONTRACT[f])
+        U.fn(F, "fn " + f, ret="r", props=DEP_PROPS, spec=THRESH_CONTRACT[f])
     for f in ("max_faulty_weight", "quorum_threshold", "subquorum_threshold"):
-        U.fn(F, "impl Schedule :: fn " + f, wrap="impl Schedule", ret="r", props=["C07"],
+        U.fn(F, "impl Schedule :: fn " + f, wrap="impl Schedule", ret="r", props=DEP_PROPS,
              spec="    requires self.wf(),\n" + THRESH_CONTRACT[f].split("\n")[2].replace("total_weight", "self.total_weight") + "\n")
     U.fn(F, "impl Schedule :: fn get", wrap="impl Schedule", ret="r", spec="""
     ensures index < self.vec@.len() ==> r == Some(&self.vec@[index as int]),
